@@ -338,12 +338,14 @@ PROPS["C16"] = {
             {"name": "random", "run": "^TestHTTPFaultsRandom$", "checks": 320, "shards": 4},
             {"name": "sender", "run": "^TestSenderFaults$", "checks": 96, "shards": 16},
             {"name": "socket", "run": "^TestSocketBackends$", "checks": 960, "shards": 8},
+            {"name": "sharedtransport", "run": "^TestBackendsShareTransport$", "checks": 48, "shards": 16, "shrinktime": "1s"},
         ],
         "thorough": [
             {"name": "enumeration", "kind": "plain", "run": "^TestHTTPFaultEnumeration$", "shards": 8, "timeout": 2400},
             {"name": "random", "run": "^TestHTTPFaultsRandom$", "checks": 32000, "shards": 4, "timeout": 1700},
             {"name": "sender", "run": "^TestSenderFaults$", "checks": 3200, "shards": 16, "timeout": 1700},
             {"name": "socket", "run": "^TestSocketBackends$", "checks": 32000, "shards": 8, "timeout": 1700},
+            {"name": "sharedtransport", "run": "^TestBackendsShareTransport$", "checks": 1600, "shards": 16, "shrinktime": "1s", "timeout": 1700},
         ],
     },
     "assumptions": [
